@@ -201,6 +201,14 @@ Proof.
   - destruct (IH H) as [x [y [Hx [Hy P]]]]. exists x, y. auto.
 Qed.
 
+Lemma exists_pair_intro {A} (p : A -> A -> bool) l x y :
+  (forall a, p a a = false) -> (forall a b, p a b = p b a) ->
+  In x l -> In y l -> p x y = true -> exists_pair p l = true.
+Proof.
+  intros Irr Sym Hx Hy P. destruct (exists_pair p l) eqn:E; [reflexivity|].
+  rewrite (exists_pair_false p l Irr Sym E x y Hx Hy) in P. discriminate.
+Qed.
+
 (* ---------------------------------------------------------------- the three carriers *)
 Definition sprint_key := "fmt.Sprint(.Info)"%string.
 Definition src_name_key := ".Src.Info.PrintableName()"%string.
@@ -533,4 +541,27 @@ Proof.
   - unfold in_F19. cbn. unfold node_same. cbn.
     replace (n_id n =? n_id n + 1) with false by (symmetry; apply Z.eqb_neq; lia).
     now rewrite info_eqb_refl.
+Qed.
+
+(* F9 on the edges of a graph needs two different nodes of that graph with one printable name *)
+Lemma F9_edges_need_same_named_nodes_lemma (es : list edge) (ns : list node) :
+  (forall e, In e es -> In (e_src e) ns /\ In (e_dst e) ns) ->
+  in_F9 es = true -> in_F9_nodes ns = true.
+Proof.
+  intros W F. unfold in_F9 in F. apply exists_pair_true in F. destruct F as [x [y [Hx [Hy P]]]].
+  apply andb_true_iff in P. destruct P as [P PD]. apply andb_true_iff in P. destruct P as [P PS].
+  apply andb_true_iff in P. destruct P as [PE _]. apply negb_true_iff in PE.
+  destruct (W x Hx) as [Sx Dx]. destruct (W y Hy) as [Sy Dy].
+  unfold edge_same in PE. apply andb_false_iff in PE.
+  assert (Irr : forall a : node, (fun a b => negb (node_same a b)
+             && String.eqb (printable_name (n_info a)) (printable_name (n_info b))) a a = false).
+  { intro a. cbv beta. unfold node_same. now rewrite Z.eqb_refl. }
+  assert (Sym : forall a b : node, (fun a b => negb (node_same a b)
+             && String.eqb (printable_name (n_info a)) (printable_name (n_info b))) a b =
+           (fun a b => negb (node_same a b)
+             && String.eqb (printable_name (n_info a)) (printable_name (n_info b))) b a).
+  { intros a b. cbv beta. unfold node_same. now rewrite Z.eqb_sym, String.eqb_sym. }
+  unfold in_F9_nodes. destruct PE as [PE|PE].
+  - apply (exists_pair_intro _ ns (e_src x) (e_src y) Irr Sym Sx Sy). cbv beta. now rewrite PE, PS.
+  - apply (exists_pair_intro _ ns (e_dst x) (e_dst y) Irr Sym Dx Dy). cbv beta. now rewrite PE, PD.
 Qed.
